@@ -267,7 +267,7 @@ func VerifH_C10_reject() {
 	notNum := func(b byte) bool { // not a digit and not a sign
 		return vAnd(vOr(b < '0', b > '9'), vAnd(b != '+', b != '-'))
 	}
-	switch vRange("shape", 0, 7) {
+	switch vRange("shape", 0, 9) {
 	case 0: // unknown kind, otherwise well formed
 		d, _ := c10Digits("d", 1)
 		kt := vRange("kindText", 0, 4)
@@ -295,6 +295,10 @@ func VerifH_C10_reject() {
 		s = "node/1:2:3"
 	case 7: // empty reference
 		s = "node/"
+	case 8: // colon without a version
+		s = []string{"node", "way", "relation"}[vRange("kindText", 0, 2)] + "/1:"
+	case 9: // empty reference before a version
+		s = "way/:1"
 	}
 	_, err := ParseElementID(s)
 	vReach("parsed")
